@@ -3,6 +3,7 @@
 import itertools
 import logging
 import pickle
+import os
 import random
 import struct
 import types
@@ -537,24 +538,31 @@ def run_shard(spec):
     n = 0
     while keep_going(res, spec):
         n += 1
-        if n % 7 == 1:
-            bad, case = [], None
-            for _ in range(40):
-                bad, case = run_interleaved(rng, res)
-                if bad:
-                    break
-        elif n % 3:
-            bad, case = run_framing(rng, res, spec['tier'])
-            res.count('streams')
-        else:
-            bad, case = run_handshake(rng, res, spec['tier'])
-            res.count('handshake_cases')
+        bad, case = shard_step(n, rng, res, spec['tier'])
         res.count('evaluations')
         if n <= 3:
             res.sample({k: (v[:80] + '...' if isinstance(v, str) and len(v) > 80 else v) for k, v in case.items()})
         for clause, detail, wit in bad[:1]:
-            res.violation(clause, detail, wit, mechanism='C14/' + clause)
+            # state at module level of the code under test (a shared buffer, say) leaks from one case into the
+            # next: the witness also says which case of which shard it was, the replay can re-run the cases before it
+            res.violation(clause, detail, dict(wit, _shard={'seed': spec['seed'], 'n': n, 'tier': spec['tier']}), mechanism='C14/' + clause)
     return res
+
+
+def shard_step(n, rng, res, tier):
+    if n % 7 == 1:
+        bad, case = [], None
+        for _ in range(40):
+            bad, case = run_interleaved(rng, res)
+            if bad:
+                break
+    elif n % 3:
+        bad, case = run_framing(rng, res, tier)
+        res.count('streams')
+    else:
+        bad, case = run_handshake(rng, res, tier)
+        res.count('handshake_cases')
+    return bad, case
 
 
 def replay(witness):
@@ -570,6 +578,12 @@ def replay(witness):
         bad, _ = run_framing(rng, res, 'quick', case=witness)
     else:
         bad, _ = run_handshake(rng, res, 'quick', case=witness)
+    if not bad and witness.get('_shard') and not os.environ.get('VF_TEST_NO_CASE_HISTORY'):
+        # not reproducible on its own: the same process history (cases 1..n of that shard)
+        sh = witness['_shard']
+        rng = random.Random(sh['seed'])
+        for k in range(1, sh['n'] + 1):
+            bad, _ = shard_step(k, rng, Result() if k < sh['n'] else res, sh['tier'])
     for clause, detail, wit in bad[:1]:
         res.violation(clause, detail, witness, mechanism='C14/' + clause)
     res.count('evaluations')
